@@ -53,8 +53,10 @@ partial def prngBytes (seed : UInt64) (n : Nat) : Bytes := Id.run do
   return out.toList
 
 /-- byte strings on a line: `hex:…`, `rep:<byte>:<n>`, `prng:<seed>:<n>`, `-` (empty) -/
-def parseBytes (s : String) : Option Bytes :=
+partial def parseBytes (s : String) : Option Bytes :=
   if s == "-" || s == "" then some []
+  else if s.startsWith "cat:" then
+    ((s.drop 4).toString.splitOn "+").foldlM (fun acc part => (parseBytes part).map (acc ++ ·)) []
   else if s.startsWith "hex:" then parseHex (s.drop 4).toString
   else if s.startsWith "rep:" then
     match (s.drop 4).toString.splitOn ":" with
